@@ -89,7 +89,8 @@ def random_instance(rng, cls, small=False):
             meta["ends"] = [rng.choice(inner)]; kw["additional_ends"] = list(meta["ends"])
     if cls in ("kFlowDecomp", "kLeastAbsErrors", "kMinPathError") and rng.random() < 0.12 and "elements_to_ignore" not in kw and kw.get("k"):
         ws = [w for _, w in base["planted"]] or [1]
-        kw["solution_weights_superset"] = ws + [rng.choice([1, 2, 3]) if wt == "int" else 0.5]
+        kw["solution_weights_superset"] = ws + [rng.choice([1, 2, 3]) if wt == "int" else 0.5] + [rng.choice([1, 2]) if wt == "int" else 1.0]
+        kw["k"] = max(1, min(kw["k"], len(ws) - rng.choice([0, 1])))      # a superset longer than k: the cap on the number of paths matters
         meta["allow_empty"] = True
     if cls == "kMinPathError" and wt == "int" and rng.random() < 0.15:
         kw["path_length_ranges"] = [[0, 3], [4, 50]]; kw["path_length_factors"] = [1.0, 0.5]
